@@ -91,7 +91,8 @@ pub fn check_frames(r: &Replay, g: &Game, c: &mut Case) {
     if shape != tpl { c.fail("C04", format!("character slots {:?} != occupied ports {:?}", shape, tpl)); return; }
     for (ci, (d, port, fol)) in slots.iter().enumerate() {
         let (np, nq) = (d.pre.random_seed.len(), d.post.character.len());
-        if np != n || nq != n { c.fail("C04", format!("port {} follower {}: {} pre / {} post rows for {} frames", port, fol, np, nq, n)); continue; }
+        if np != n || nq != n { c.fail("C04", format!("port {} follower {}: {} pre / {} post rows for {} frames", port, fol, np, nq, n));
+            c.fail("C03", format!("port {} follower {}: {} pre / {} post rows for {} frames, so row i does not hold the field values of frame i", port, fol, np, nq, n)); continue; }
         if let Some(b) = &d.validity { if b.len() != n { c.fail("C04", format!("port {} validity length {} != {}", port, b.len(), n)); continue; } }
         for i in 0..n {
             let occ = &r.frames[i].chars[ci].2;
@@ -247,7 +248,9 @@ fn read(rng: &mut Rng, ctx: &mut Ctx) {
             let kk = [1usize, 3, 5, 64, 300, 4096][(k / 4) % 6];
             let mut sink = crate::suites2::ShortSink::new(kk, None, if k % 8 == 2 { 3 } else { 0 });
             let got = std::panic::catch_unwind(std::panic::AssertUnwindSafe(|| slippi::write(&mut sink, g).map_err(|e| e.to_string())));
-            match got { Ok(Ok(())) => { if sink.out != o { let m = format!(".slp written into a sink that takes {} bytes per call differs from the one written into a Vec (lengths {} vs {})", kk, sink.out.len(), o.len()); c.fail("C01", m.clone()); c.fail("C17", m); } }
+            match got { Ok(Ok(())) => { if sink.out != o { let m = format!(".slp written into a sink that takes {} bytes per call differs from the one written into a Vec (lengths {} vs {})", kk, sink.out.len(), o.len()); c.fail("C01", m.clone()); c.fail("C17", m.clone());
+                    // the part after the raw element is the metadata element: its bytes are C16's
+                    let t = 15 + u32::from_be_bytes([o[11], o[12], o[13], o[14]]) as usize; let d = sink.out.iter().zip(&o).position(|(a, b)| a != b).unwrap_or(sink.out.len().min(o.len())); if d >= t { c.fail("C16", m); } } }
                 Ok(Err(e)) => { let m = format!(".slp writer fails on a sink that takes {} bytes per call: {}", kk, e); c.fail("C01", m.clone()); c.fail("C17", m); }
                 Err(_) => { c.fail("C01", ".slp writer panicked on a short-writing sink"); c.fail("C17", ".slp writer panicked on a short-writing sink"); } }
             let mut bad = crate::suites2::ShortSink::new(64, Some((k / 4) % 7), 0);
@@ -703,7 +706,7 @@ fn peppi_suite(rng: &mut Rng, ctx: &mut Ctx) {
             for t in 0..20000u32 { r.start_block[316..320].copy_from_slice(&t.to_be_bytes()); if xxhash_rust::xxh3::xxh3_64(&encode(&r)) >> want == 0 { break; } } }
         let b = encode(&r);
         let zero_ports = slots_of(&r.start_block).is_empty();
-        let mut fails: Vec<(String, String)> = vec![];
+        let mut fails: Vec<(String, String)> = vec![]; let mut extra: Option<String> = None;
         let res = std::panic::catch_unwind(std::panic::AssertUnwindSafe(|| -> Result<String, String> {
             let g = slippi::read(Cursor::new(&b), Some(&read_opts(false, hash))).map_err(|_| "err".to_string())?;
             let start = g.start.clone(); let endc = g.end.clone(); let h0 = g.hash.clone(); let q0 = g.quirks.map(|q| q.double_game_end);
@@ -736,7 +739,7 @@ fn peppi_suite(rng: &mut Rng, ctx: &mut Ctx) {
                 Ok(g3) => { if start_json(&g3.start) != start_json(&start) || end_json(&g3.end) != end_json(&endc) || g3.metadata != md0 { fails.push(("C10".into(), ".slpp skip-frames: start/end/metadata differ".into())); } if g3.frames.id.len() != 0 { fails.push(("C10".into(), ".slpp skip-frames returned frames".into())); }
                     match write_slp(&g3) { Ok(y) => if read_line(&y, false, false).1.is_none() { fails.push(("C10".into(), ".slpp skip-frames result cannot be re-read after writing".into())); }, Err(e) => fails.push(("C10".into(), format!(".slpp skip-frames result cannot be written: {}", e))) } }
                 Err(e) => fails.push(("C10".into(), format!(".slpp skip-frames read failed: {}", e))) }
-            let mut parts = vec![]; let mut names = vec![];
+            let mut parts = vec![]; let mut names = vec![]; let mut ipc_dump: Option<String> = None;
             for e in tar::Archive::new(Cursor::new(&buf)).entries().unwrap() {
                 let mut e = e.unwrap(); let name = e.path().unwrap().to_string_lossy().to_string(); let mut c = vec![]; e.read_to_end(&mut c).unwrap();
                 names.push(name.clone());
@@ -749,7 +752,7 @@ fn peppi_suite(rng: &mut Rng, ctx: &mut Ctx) {
                         if let Some((_, ej)) = &rebuilt { if Some(&c) != ej.as_ref() { fails.push(("C18".into(), format!("end.json ({}) is not the JSON rendering of what the .slpp reader reconstructs from end.raw ({})", String::from_utf8_lossy(&c), ej.as_ref().map_or("none".to_string(), |x| String::from_utf8_lossy(x).to_string())))); } }
                         canon_end(endc.as_ref().unwrap()) }
                     "frames.arrow" => { let mut rd = Cursor::new(&c[8..]); let md = read_stream_metadata(&mut rd).unwrap(); let mut sr = StreamReader::new(rd, md, None);
-                        match sr.next() { Some(Ok(StreamState::Some(chunk))) => crate::arrowdump::dump(chunk.arrays()[0].as_ref()), _ => "?".into() } }
+                        match sr.next() { Some(Ok(StreamState::Some(chunk))) => { ipc_dump = Some(crate::arrowdump::dump_af(chunk.arrays()[0].as_ref())); crate::arrowdump::dump(chunk.arrays()[0].as_ref()) } _ => "?".into() } }
                     _ => hex(&c),
                 };
                 parts.push(format!("{}={}", name, content));
@@ -757,11 +760,14 @@ fn peppi_suite(rng: &mut Rng, ctx: &mut Ctx) {
             let mut exp: Vec<&str> = vec!["peppi.json", "metadata.json", "start.json", "start.raw"];
             if endc.is_some() { exp.push("end.json"); exp.push("end.raw"); } if has_gecko { exp.push("gecko_codes.raw"); } if nframes > 0 { exp.push("frames.arrow"); }
             if names != exp { fails.push(("C18".into(), format!("entries {:?} != {:?}", names, exp))); }
+            if let Some(d) = ipc_dump { extra = Some(d); }
             Ok(format!("ok {}", parts.join("|")))
         }));
         let line = match res { Err(_) => { if zero_ports && !r.frames.is_empty() { fails.push(("C02".into(), "KNOWN:zero-ports panic in peppi::write (no occupied port)".into())); } else { fails.push(("C02".into(), "panic in the .slpp writer/reader".into())); fails.push(("C18".into(), "panic in the .slpp writer".into())); } "panic".to_string() }, Ok(Err(e)) => { if !deep.map_or(false, |d| d > 127) { fails.push(("C02".into(), "well-formed replay could not be converted to .slpp".into())); } e }, Ok(Ok(s)) => s };
         let hs = if hash { format!("xxh3:{:016x}", xxhash_rust::xxh3::xxh3_64(&b)) } else { "-".to_string() };
         let mut c = Case::new(format!("pwrite 1 {} {}", hs, hex(&b)), line); c.oracle = fails; c.tags = tags; c.tags.push(format!("comp{}", k % 3));
         ctx.push(c);
+        // the struct array read back from the IPC stream, against the proof-level Arrow model (export + validity normalisation), column by column
+        if let Some(d) = extra { let mut c = Case::new(format!("intoa {}", hex(&b)), format!("ok {}", d)); c.tags = vec![format!("ipc-array comp{}", k % 3)]; ctx.push(c); }
     }
 }
